@@ -268,6 +268,7 @@ EXC_PARENTS = {
     'TypeError': 'Exception', 'AttributeError': 'Exception',
     'StopIteration': 'Exception', 'KindConfusion': 'Exception',
     'YAMLError': 'Exception', 'UserException': 'Exception',
+    'RepresenterError': 'YAMLError',
     'Exception': 'BaseException', 'BaseException': None,
 }
 
